@@ -29,6 +29,7 @@ TECHNIQUE = "TLA+ (exact rationals) checked by TLC; history replay on the real p
 TOL = 1e-9
 # short single-worker runs: serial GC and C1-only JIT start faster and do not fight for cores with other checks
 SMALL_JVM = ["-XX:-UseParallelGC", "-XX:+UseSerialGC", "-XX:TieredStopAtLevel=1", "-Xss64m"]
+LONG_JVM = ["-XX:-UseParallelGC", "-XX:+UseSerialGC", "-Xss64m"]       # single worker (history printing), full JIT
 
 BASE_CONSTS = {"Plan": "adaptive", "Den": 4, "StartN": 0, "StopN": 8, "MinStepN": 1, "MaxStepN": 4, "TargetN": 4,
                "ThrN": 4, "ThrD": 5, "Num": 3, "SfN": 2, "SfD": 1, "Readings": {0, 1, 2, 5}, "MaxIter": 5,
@@ -66,7 +67,7 @@ def tlc_model(ctx, label, c, dump, props=True, small=True):
     cfg = write_cfg(ctx.out / f"{label}.cfg", c, invariants=inv, properties=prop if props else (),
                     constraints=["DumpHist"] if dump else ())
     res = run_tlc("Adaptive", cfg, spec_dir=SD, tag="C29", workers=1 if dump or small else "auto", timeout=3000,
-                  java_opts=SMALL_JVM if small else None)
+                  java_opts=SMALL_JVM if small else LONG_JVM)
     ctx.add_tlc(res, f"Adaptive.tla {label}")
     if not res.ok:
         st = res.trace[-1][1] if res.trace else {}
@@ -164,19 +165,25 @@ def run(ctx):
     models = [("adaptive_scan_unbounded", A_UNB, True), ("tune_centroid_unbounded", T_UNB, True)]
     if not quick:
         models += [
-            ("adaptive_scan_unbounded_b", consts(Plan="adaptive", StopN=4, MaxStepN=3), True),
-            ("adaptive_scan_cut7", consts(Plan="adaptive", MaxIter=7), False),    # adaptive_scan(0, 2, 1/4, 1, 1), <= 7 visits
+            # adaptive_scan(0, 5/4, 1/4, 1, 2, threshold=9/10): other threshold, longer retry chains
+            ("adaptive_scan_unbounded_b", consts(Plan="adaptive", StopN=5, MaxStepN=4, TargetN=8, ThrN=9, ThrD=10), True),
+            # adaptive_scan(0, 2, 1/4, 1, 1), behaviours cut after 7 visits
+            ("adaptive_scan_cut7", consts(Plan="adaptive", MaxIter=7), False),
+            # adaptive_scan(1/2, 7/2, 1/2, 5/4, 2, threshold=9/10), cut after 6 visits (start # 0, other step ratio)
             ("adaptive_scan_cut6_b", consts(Plan="adaptive", Den=4, StartN=2, StopN=14, MinStepN=2, MaxStepN=5, TargetN=8,
-                                            ThrN=1, ThrD=2, MaxIter=6), False),
-            ("tune_centroid_cut7", consts(Plan="tune", Den=2, StartN=0, StopN=8, MinStepN=1, Num=3, MaxIter=7), False),
-            ("tune_centroid_cut7_b", consts(Plan="tune", Den=1, StartN=1, StopN=7, MinStepN=1, Num=4, SfN=3, SfD=2, MaxIter=7),
-             False)]
+                                            ThrN=9, ThrD=10, MaxIter=6), False),
+            # tune_centroid(0, 4, 1/2, num=3, step_factor=2, snake=True), cut after 7 visits
+            ("tune_centroid_cut7", consts(Plan="tune", Den=2, StartN=0, StopN=8, MinStepN=1, Num=3, MaxIter=7,
+                                          Flips={False}, Snakes={True}), False),
+            # tune_centroid(7, 1, 1, num=4, step_factor=3/2), cut after 7 visits (non-dyadic steps, descending)
+            ("tune_centroid_cut7_b", consts(Plan="tune", Den=1, StartN=1, StopN=7, MinStepN=1, Num=4, SfN=3, SfD=2, MaxIter=7,
+                                            Flips={True}, Snakes={False}), False)]
     spec_ok = True
     cover = {}
     for label, c, unbounded in models:
         if unbounded:
             c["MaxIter"] = as_bound(c) + 1
-        res, hists = tlc_model(ctx, label, c, dump=True)
+        res, hists = tlc_model(ctx, label, c, dump=True, small=unbounded)
         if res is None:
             spec_ok = False
             continue
